@@ -10,6 +10,7 @@ Helper lemmas: `Lemmas/C13Table*.lean` (complete 400-year era table), `Lemmas/C1
 import LinVerif.Model.Interval
 import LinVerif.Generated.C13
 import LinVerif.Lemmas.C13Interval
+import LinVerif.Lemmas.C13Lookup
 import LinVerif.Lemmas.C13Planner
 
 namespace LinVerif.Props.C13
@@ -120,6 +121,155 @@ theorem family_closed_form (t : Int) (h : 0 ≤ t) :
   · rw [Lemmas.C13.day_familyTime h]; simp [calcFamilyEndTime, Lemmas.C13.oneHour_val]
   · rw [Lemmas.C13.month_familyTime h, Lemmas.C13.month_familyEnd]
   · rw [Lemmas.C13.year_familyTime h, Lemmas.C13.year_familyEnd]
+
+/-! ## range lookup: `Shard.GetDataFamilies` (intervalSegment → segment, current code) -/
+
+/-- For every interval type, every set of existing families (given by timestamps `ts ≥ 0` they
+were created for, in any number of segments) and every query range `0 ≤ start ≤ stop`: the
+families returned are exactly the existing families whose time range intersects the query range
+— equivalently the family-truncated query range
+`[CalcFamilyTime(start), CalcFamilyEndTime(CalcFamilyTime(stop))]`, see
+`get_data_families_truncated`. -/
+theorem get_data_families_exact (c : Calc) (q : TimeRange) (ts : List Int) (hq0 : 0 ≤ q.start)
+    (hq : q.start ≤ q.stop) (hts : ∀ t ∈ ts, 0 ≤ t) (x : Int) :
+    x ∈ getDataFamilies .ownSegment c q ts ↔
+      ∃ t ∈ ts, x = calcFamilyTime c t ∧ calcFamilyTime c t ≤ q.stop ∧
+        q.start ≤ calcFamilyEndTime c (calcFamilyTime c t) :=
+  Lemmas.C13.getDataFamilies_mem c q ts hq0 hq hts x
+
+/-- the same condition against the family-truncated query range: a family `[s, e]` intersects
+`[start, stop]` iff `CalcFamilyTime(start) ≤ s ≤ CalcFamilyTime(stop)` -/
+theorem get_data_families_truncated (c : Calc) (q : TimeRange) (t : Int) (hq0 : 0 ≤ q.start)
+    (hq : q.start ≤ q.stop) (ht : 0 ≤ t) :
+    (calcFamilyTime c t ≤ q.stop ∧ q.start ≤ calcFamilyEndTime c (calcFamilyTime c t)) ↔
+    (calcFamilyTime c q.start ≤ calcFamilyTime c t ∧ calcFamilyTime c t ≤ calcFamilyTime c q.stop) := by
+  have hs0 := Lemmas.C13.familyTime_nonneg c ht
+  have cs := Lemmas.C13.family_contains c ht
+  have ca := Lemmas.C13.family_contains c hq0
+  have cb := Lemmas.C13.family_contains c (t := q.stop) (by omega)
+  constructor
+  · rintro ⟨h1, h2⟩
+    have m1 := Lemmas.C13.familyTime_mono c hq0 h2
+    rw [Lemmas.C13.family_idempotent c ht (by omega) (Int.le_refl _)] at m1
+    have m2 := Lemmas.C13.familyTime_mono c hs0 h1
+    rw [Lemmas.C13.familyTime_fix c ht] at m2
+    exact ⟨m1, m2⟩
+  · rintro ⟨h1, h2⟩
+    refine ⟨by omega, ?_⟩
+    by_cases hc : q.start ≤ calcFamilyEndTime c (calcFamilyTime c t)
+    · exact hc
+    · exfalso
+      have m3 := Lemmas.C13.familyTime_mono c
+        (t1 := calcFamilyEndTime c (calcFamilyTime c t) + 1) (t2 := q.start) (by omega) (by omega)
+      rw [Lemmas.C13.families_tile c ht] at m3
+      omega
+
+/-- write and query agree on the family: the family that `GetOrCreateDataFamily` assigns to a
+requested timestamp is always among the families `GetDataFamilies` returns -/
+theorem query_finds_written_family (c : Calc) (q : TimeRange) (ts : List Int) (t : Int)
+    (hq0 : 0 ≤ q.start) (hts : ∀ t ∈ ts, 0 ≤ t) (hm : t ∈ ts) (h1 : q.start ≤ t) (h2 : t ≤ q.stop) :
+    calcFamilyTime c t ∈ getDataFamilies .ownSegment c q ts := by
+  have cs := Lemmas.C13.family_contains c (hts t hm)
+  exact (get_data_families_exact c q ts hq0 (by omega) hts _).2 ⟨t, hm, rfl, by omega, by omega⟩
+
+/-! ## slot range of a family ∩ query range (`Interval.CalcSlotRange`) -/
+
+/-- When the query range meets the family (`rs = q ∩ family`, `rs.start ≤ rs.stop`; a single point
+`rs.start = rs.stop` included) `CalcSlotRange` returns `[a, b]` (as `uint16`) with
+`family + a·i ≤ rs.start < family + (a+1)·i` and `family + b·i ≤ rs.stop < family + (b+1)·i`:
+the slots of the first and last requested timestamps, `a ≤ b`; in particular `[n, n]`, not
+`[0, 0]`, for a one-slot range. -/
+theorem slot_range_exact (i t : Int) (q : TimeRange) (h : 0 ≤ t) (hi : 0 < i)
+    (hne : (q.intersect ⟨calcFamilyTime (intervalType i) t,
+        calcFamilyEndTime (intervalType i) (calcFamilyTime (intervalType i) t)⟩).start ≤
+      (q.intersect ⟨calcFamilyTime (intervalType i) t,
+        calcFamilyEndTime (intervalType i) (calcFamilyTime (intervalType i) t)⟩).stop) :
+    ∃ a b, calcSlotRange i (calcFamilyTime (intervalType i) t) q = some (a % 65536, b % 65536) ∧
+      0 ≤ a ∧ a ≤ b ∧
+      calcFamilyTime (intervalType i) t + a * i ≤
+        (q.intersect ⟨calcFamilyTime (intervalType i) t,
+          calcFamilyEndTime (intervalType i) (calcFamilyTime (intervalType i) t)⟩).start ∧
+      (q.intersect ⟨calcFamilyTime (intervalType i) t,
+          calcFamilyEndTime (intervalType i) (calcFamilyTime (intervalType i) t)⟩).start <
+        calcFamilyTime (intervalType i) t + (a + 1) * i ∧
+      calcFamilyTime (intervalType i) t + b * i ≤
+        (q.intersect ⟨calcFamilyTime (intervalType i) t,
+          calcFamilyEndTime (intervalType i) (calcFamilyTime (intervalType i) t)⟩).stop ∧
+      (q.intersect ⟨calcFamilyTime (intervalType i) t,
+          calcFamilyEndTime (intervalType i) (calcFamilyTime (intervalType i) t)⟩).stop <
+        calcFamilyTime (intervalType i) t + (b + 1) * i :=
+  Lemmas.C13.slotRange_spec i t q h hi hne
+
+/-! ## broker row grouping (`BrokerBatchShardFamilyIterator`) -/
+
+/-- every row is handed out under the family (of the batch's interval type) that contains its
+timestamp, and only rows of the batch are handed out -/
+theorem broker_groups_sound (c : Calc) (ts : List Int) (hts : ∀ t ∈ ts, 0 ≤ t) :
+    ∀ g ∈ groupFamilies c ts, ∀ t ∈ g.2, calcFamilyTime c t = g.1 ∧ t ∈ ts := by
+  cases ts with
+  | nil => intro g hg; simp [groupFamilies] at hg
+  | cons t rest =>
+    intro g hg
+    simp only [groupFamilies] at hg
+    split at hg
+    · rename_i hall
+      simp only [List.mem_singleton] at hg
+      subst hg
+      intro x hx
+      refine ⟨?_, hx⟩
+      rcases List.mem_cons.1 hx with rfl | hx
+      · rfl
+      · exact Lemmas.C13.range_contains_family c (hts t (by simp)) (List.all_eq_true.1 hall x hx)
+    · intro x hx
+      have hs : ∀ y ∈ sortAsc (t :: rest), 0 ≤ y := fun y hy =>
+        hts y ((Lemmas.C13.sortAsc_perm (t :: rest)).subset hy)
+      have := Lemmas.C13.groupSorted_sound c _ _ hs g hg x hx
+      exact ⟨this.1, (Lemmas.C13.sortAsc_perm (t :: rest)).subset this.2⟩
+
+/-- no row is lost or duplicated: the rows handed out are a permutation of the batch -/
+theorem broker_groups_complete (c : Calc) (ts : List Int) (hts : ∀ t ∈ ts, 0 ≤ t) :
+    ((groupFamilies c ts).flatMap (·.2)).Perm ts := by
+  cases ts with
+  | nil => simp [groupFamilies]
+  | cons t rest =>
+    simp only [groupFamilies]
+    split
+    · simp
+    · have hs : ∀ y ∈ sortAsc (t :: rest), 0 ≤ y := fun y hy =>
+        hts y ((Lemmas.C13.sortAsc_perm (t :: rest)).subset hy)
+      have hl : (sortAsc (t :: rest)).length ≤ (t :: rest).length :=
+        Nat.le_of_eq (Lemmas.C13.sortAsc_perm (t :: rest)).length_eq
+      exact (Lemmas.C13.groupSorted_perm c _ _ hs hl).trans (Lemmas.C13.sortAsc_perm (t :: rest))
+
+/-! ## rollup relation (`kv/family_rollup.go`) -/
+
+/-- hour families ⊆ UTC-day families ⊆ calendar-month families -/
+theorem family_nested (c₁ c₂ : Calc) (hc : Lemmas.C13.finerEq c₁ c₂ = true) (t t' : Int) (h : 0 ≤ t)
+    (h1 : calcFamilyTime c₁ t ≤ t') (h2 : t' ≤ calcFamilyEndTime c₁ (calcFamilyTime c₁ t)) :
+    calcFamilyTime c₂ t' = calcFamilyTime c₂ t :=
+  Lemmas.C13.family_nested c₁ c₂ hc h h1 h2
+
+/-- the target slot the rollup relation computes for a source timestamp is the target interval's
+slot of that timestamp in the target family: `targetFTime + slot·target ≤ ts < … + target`
+(source interval type not coarser than the target's; `ts` in the source family) -/
+theorem rollup_slot_bound (source target t ts : Int) (h : 0 ≤ t) (hi : 0 < target)
+    (hc : Lemmas.C13.finerEq (intervalType source) (intervalType target) = true)
+    (h1 : calcFamilyTime (intervalType source) t ≤ ts)
+    (h2 : ts ≤ calcFamilyEndTime (intervalType source) (calcFamilyTime (intervalType source) t)) :
+    ∃ s, calcSlot (intervalType target) ts
+        (rollupTargetFamilyTime target (calcFamilyTime (intervalType source) t)) target = some s ∧
+      0 ≤ s ∧
+      rollupTargetFamilyTime target (calcFamilyTime (intervalType source) t) + s * target ≤ ts ∧
+      ts < rollupTargetFamilyTime target (calcFamilyTime (intervalType source) t) + (s + 1) * target := by
+  have hts : 0 ≤ ts := Int.le_trans (Lemmas.C13.familyTime_nonneg _ h) h1
+  have cs := Lemmas.C13.family_contains (intervalType source) h
+  have e1 := Lemmas.C13.family_nested _ _ hc h h1 h2
+  have e2 := Lemmas.C13.family_nested _ _ hc (t' := calcFamilyTime (intervalType source) t) h
+    (Int.le_refl _) (by omega)
+  have := Lemmas.C13.slot_bound (intervalType target) (t := ts) (i := target) hts hi
+  simp only [rollupTargetFamilyTime]
+  rw [e2, ← e1]
+  exact this
 
 /-! ## query planner -/
 
@@ -241,6 +391,12 @@ example : calcSlot .month 1709210096789 1709164800000 300000 = some 150 := by de
 example : calcTimeRangeAndInterval ⟨0, ⟨1709210096789, 1709296496789⟩, false⟩ [10000, 300000, 3600000]
     = some ⟨⟨1709209800000, 1709296200000⟩, 300000, 300000, 1⟩ := by decide
 
+-- single-slot query range inside the 10:00 family of a 10s database: slots [104, 104]
+example : calcSlotRange 10000 1709200800000 ⟨1709201840000, 1709201840000⟩ = some (104, 104) := by decide
+-- a batch with rows in two adjacent hour families
+example : groupFamilies .day [1709203800000, 1709205000000, 1709201000000]
+    = [(1709200800000, [1709201000000, 1709203800000]), (1709204400000, [1709205000000])] := by decide
+
 /-! ## tie to /repo's source (regenerated facts) -/
 namespace Tie
 open LinVerif.Generated
@@ -324,26 +480,65 @@ theorem family_range_bodies :
     C13.getOrCreateDataFamilyCalls = ["interval.Calculator", "calc.CalcSegmentTime", "fmt.Errorf"] ∧
     C13.timeRangeOfTimestampBody = ["segmentTime := itr.intervalCalc.CalcSegmentTime(timestamp)", "family := itr.intervalCalc.CalcFamily(timestamp, segmentTime)", "familyStartTime := itr.intervalCalc.CalcFamilyStartTime(segmentTime, family)", "return timeutil.TimeRange{ Start: familyStartTime, End: itr.intervalCalc.CalcFamilyEndTime(familyStartTime), }"] := ⟨rfl, rfl, rfl⟩
 
+/-- the code variant of `segment.GetDataFamilies` the lookup theorems are stated for is the one the
+current source text selects (fix 8adefd6) -/
+theorem lookup_variant : lookupVariantOf C13.gdfRangeExprs = some .ownSegment := rfl
+
+theorem lookup_calls :
+    C13.segmentGdfCalls = ["interval.Calculator", "calc.CalcFamilyTime", "calc.CalcFamilyTime", "kvStore.ListFamilyNames", "strconv.Atoi", "s.getOrLoadFamily", "family.TimeRange", "familyQueryTimeRange.Overlap", "append"] ∧
+    C13.intervalSegmentRangeExprs = ["intervalCalc.CalcSegmentTime(timeRange.Start)", "timeRange.End"] ∧
+    C13.intervalSegmentGdfCalls = ["commontimeutil.Now", "Interval.Calculator", "intervalCalc.CalcSegmentTime", "Retention.Int64", "λ:segmentQueryTimeRange.Contains", "λ:s.getOrLoadSegment", "λ:logger.String", "λ:logger.String", "λ:logger.Error", "λ:logger.Info", "λ:segmentQueryTimeRange.Intersect", "λ:segment.GetDataFamilies", "λ:len", "λ:append", "s.walkSegment", "logger.String", "logger.Error", "logger.Warn"] :=
+  ⟨rfl, rfl, rfl⟩
+
+theorem slot_range_body : C13.calcSlotRangeBody = ["calc := i.Calculator()", "storageTimeRange := TimeRange{ Start: familyTime, End: calc.CalcFamilyEndTime(familyTime), }", "rs := timeRange.Intersect(storageTimeRange)", "intervalVal := i.Int64()", "return SlotRange{ Start: uint16(calc.CalcSlot(rs.Start, familyTime, intervalVal)), End: uint16(calc.CalcSlot(rs.End, familyTime, intervalVal)), }"] := rfl
+
+theorem rollup_bodies :
+    C13.rollupGetTimestampBody = ["return r.sourceFTime + int64(slot)*r.source.Int64()"] ∧
+    C13.rollupIntervalRatioBody = ["return uint16(r.target / r.source)"] ∧
+    C13.rollupCalcSlotBody = ["return uint16(r.target.Calculator().CalcSlot(timestamp, r.targetFTime, r.target.Int64()))"] ∧
+    C13.rollupBaseSlotBody = ["return r.CalcSlot(r.sourceFTime)"] ∧
+    C13.newRollupBody = ["return &rollup{ source: source, target: target, sourceFTime: sourceFTime, targetFTime: targetFTime, }"] ∧
+    C13.rollupTargetExprs = ["tSegmentTime := targetInterval.Calculator().CalcSegmentTime(familyStartTime)", "tFamilyTime := targetInterval.Calculator().CalcFamily(familyStartTime, tSegmentTime)", "fSTime := targetInterval.Calculator().CalcFamilyStartTime(tSegmentTime, tFamilyTime)", "rollup := newRollup(sourceInterval, targetInterval, familyStartTime, fSTime)"] :=
+  ⟨rfl, rfl, rfl, rfl, rfl, rfl⟩
+
+theorem broker_bodies :
+    C13.brokerResetBody = ["itr.groupEnd = 0", "itr.groupStart = 0", "itr.rows = rows", "itr.intervalCalc = interval.Calculator()", "itr.groupFamilyTime = 0", "itr.rows = rows", "if itr.sameFamily = itr.isSameFamily(); itr.sameFamily { return }", "sort.Sort(itr.rows)"] ∧
+    C13.brokerIsSameFamilyBody = ["if len(itr.rows) == 0 { return true }", "firstTimestamp := itr.rows[0].m.Timestamp()", "itr.groupFamilyTime = itr.familyTimeOfTimestamp(firstTimestamp)", "timeRange := itr.timeRangeOfTimestamp(firstTimestamp)", "for i := 1; i < len(itr.rows); i++ { if !timeRange.Contains(itr.rows[i].m.Timestamp()) { return false } }", "return true"] ∧
+    C13.brokerHasNextFamilyBody = ["if itr.groupEnd >= len(itr.rows) || itr.groupStart > itr.groupEnd { return false }", "if itr.sameFamily { itr.groupEnd = len(itr.rows) itr.groupStart = 0 return true }", "firstTimestamp := itr.rows[itr.groupEnd].m.Timestamp()", "timeRange := itr.timeRangeOfTimestamp(firstTimestamp)", "itr.groupStart = itr.groupEnd", "itr.groupFamilyTime = itr.familyTimeOfTimestamp(firstTimestamp)", "for itr.groupEnd < len(itr.rows) { if !timeRange.Contains(itr.rows[itr.groupEnd].m.Timestamp()) { break } itr.groupEnd++ }", "return itr.groupStart < itr.groupEnd"] ∧
+    C13.brokerNextFamilyBody = ["return itr.groupFamilyTime, itr.rows[itr.groupStart:itr.groupEnd]"] ∧
+    C13.brokerFamilyTimeOfTimestampBody = ["return itr.intervalCalc.CalcFamilyTime(timestamp)"] ∧
+    C13.brokerFamilyIteratorFields = ["groupEnd int", "groupStart int", "groupFamilyTime int64", "sameFamily bool", "rows familySortedRows", "intervalCalc timeutil.IntervalCalculator"] :=
+  ⟨rfl, rfl, rfl, rfl, rfl, rfl⟩
+
 end Tie
 
-/-! ## observation (outside C13's statement; recorded for C11)
+/-! ## what fix 8adefd6 repaired: the previous variant of `segment.GetDataFamilies`
 
-`segment.GetDataFamilies` builds the family range of a query from `CalcFamily` of the query's
-start and end applied to the *segment's* base time. For month-type (and year-type) segments
-`CalcFamily` is the day of month (month of year), so for a query that crosses a month (year)
-boundary the range is inverted and only the family containing the range's start can overlap it.
-C13 states nothing about range lookup, so this is not a C13 violation. -/
-namespace Observation
+Before the fix the family range of a query was built from `CalcFamily` (day of month for month-type,
+month of year for year-type segments) of the query's start and end applied to the *segment's* base
+time; for a range crossing a month (year) boundary that range is inverted and a family that holds a
+requested timestamp is not returned. The full-strength statement `get_data_families_exact` is
+false for that variant. -/
+namespace Neg
 
-/-- June 2023 segment, query 2023-06-25 .. 2023-07-05: the family query range is
-[2023-06-25, 2023-06-05] (start after end), and the family of 2023-06-27 — inside the query — does
-not overlap it -/
-theorem month_range_inverted :
-    familyQueryTimeRange .month 1685577600000 ⟨1687651200000, 1688515200000⟩
-      = ⟨1687651200000, 1685923200000⟩ ∧
-    (familyQueryTimeRange .month 1685577600000 ⟨1687651200000, 1688515200000⟩).overlap
-      (timeRangeOfTimestamp .month 1687824000000) = false := by decide
+/-- month-type families written on 2023-06-27 and 2023-07-03, query 2023-06-25 .. 2023-07-05:
+the old variant returns nothing; the current one returns both -/
+theorem per_segment_lookup_misses_family :
+    getDataFamilies .perSegment .month ⟨1687651200000, 1688515200000⟩ [1687860000000, 1688378400000] = [] ∧
+    getDataFamilies .ownSegment .month ⟨1687651200000, 1688515200000⟩ [1687860000000, 1688378400000]
+      = [1687824000000, 1688342400000] := by decide
 
-end Observation
+/-- the inverted range of the old variant in the June 2023 segment: [2023-06-25, 2023-06-05] -/
+theorem per_segment_range_inverted :
+    familyQueryTimeRange .perSegment .month 1685577600000 ⟨1687651200000, 1688515200000⟩
+      = ⟨1687651200000, 1685923200000⟩ := by decide
+
+/-- year-type: families of 2022-12-10 and 2023-01-20, query 2022-11-10 .. 2023-02-03 -/
+theorem per_segment_lookup_misses_family_year :
+    getDataFamilies .perSegment .year ⟨1668038400000, 1675382400000⟩ [1670630400000, 1674172800000] = [] ∧
+    getDataFamilies .ownSegment .year ⟨1668038400000, 1675382400000⟩ [1670630400000, 1674172800000]
+      = [1669852800000, 1672531200000] := by decide
+
+end Neg
 
 end LinVerif.Props.C13
